@@ -190,6 +190,22 @@ def main():
                 out.write('CKIN %d %s %s\n' % (i, nm, data.hex()))
             for pos, size, le in vtrace.PATCHES:
                 out.write('PATCH %d pos=%d size=%d le=%s\n' % (i, pos, size, le))
+        elif parts[0] == 'A':
+            # a connection buffer in use: two copies of message 0 are written, the first is decoded (consumed), then message i is appended
+            i = int(parts[1])
+            out.write('BEGIN A %d\n' % i); out.flush()
+            try:
+                buf = ByteBuf()
+                try:
+                    BUILDERS[0]().encode(buf); BUILDERS[0]().encode(buf)
+                    ROOT().decode(buf)
+                except Exception as e:
+                    out.write('ENCA %d SKIP %s\n' % (i, _err(e)))
+                    continue
+                BUILDERS[i]().encode(buf)
+                out.write('ENCA %d %s\n' % (i, bytes(buf.data[buf.read_index:]).hex()))
+            except Exception as e:
+                out.write('ENCA %d ERR %s\n' % (i, _err(e)))
         elif parts[0] == 'U':
             import checksum as _ck
             i = int(parts[1])
